@@ -527,6 +527,7 @@ func checkC06(c *Check) {
 
 	c06Replay(c)
 	c06StageMemory(c)
+	c06Registry(c)
 	c06MetadataIdentity(c)
 
 	// ---- R6: the checks a block runs are the checks its configuration names. A block that keeps the slice of a named
@@ -690,6 +691,53 @@ func c06MetadataIdentity(c *Check) {
 func c06ReplayOnly(c *Check) {
 	c06Replay(c)
 	c06StageMemory(c)
+	c06Registry(c)
+}
+
+// R1c: which recipient blocks get their body checks. Body / BodyNonAtomic run the body stage of the checks of every
+// block that is a key of the delivery's registry (rcptModifiersState); getRcptModifiers is what puts a block there,
+// for every recipient routed to it. A path on which it hands the block's state to the caller without the block being
+// in the registry (a short cut for blocks without modifiers) makes the body stage of that block's checks – the
+// header check of authorize_sender in a destination block, say – silently disappear.
+func c06Registry(c *Check) {
+	c.Rule("R1c", "getRcptModifiers returns successfully only for a block that is in the delivery's registry of recipient blocks (found there, or stored on the way): the body-stage checks of every block a recipient was routed to run", 1)
+	r := c.need("R1c", pipelineRel, "msgpipelineDelivery", "getRcptModifiers")
+	if r == nil {
+		return
+	}
+	info := r.Info
+	isReg := func(e ast.Expr) bool {
+		fv := fieldOf(info, e)
+		return fv != nil && objName(fv) == "rcptModifiersState"
+	}
+	stores := r.Assigns(func(l, _ ast.Expr) bool {
+		ix, ok := ast.Unparen(l).(*ast.IndexExpr)
+		return ok && isReg(ix.X)
+	})
+	// the comma-ok flag of the lookup in the registry
+	var okObj types.Object
+	for _, pt := range r.F.Points() {
+		if as, ok := pt.Node().(*ast.AssignStmt); ok && len(as.Lhs) == 2 && len(as.Rhs) == 1 {
+			if ix, isIx := ast.Unparen(as.Rhs[0]).(*ast.IndexExpr); isIx && isReg(ix.X) {
+				okObj = objOf(info, as.Lhs[1])
+			}
+		}
+	}
+	msg := ""
+	if len(stores) == 0 || okObj == nil {
+		msg = "undecided: expected a lookup in and a store into the registry of recipient blocks"
+	} else {
+		notFound := r.F.World(func(atom ast.Expr) (bool, bool) {
+			if objOf(info, atom) == okObj {
+				return false, true
+			}
+			return false, false
+		})
+		if path, found := r.F.Reach(Query{From: r.Entry(), Inclusive: true, Target: r.IsSuccessReturn, Avoid: isPt(stores), AvoidEdge: notFound}); found {
+			msg = "a block that is not in the registry yet can be returned without being stored there: Body / BodyNonAtomic never run the body-stage checks of that block (a reject or quarantine of a check configured in a destination block is lost for the header stage): " + r.F.Describe(path)
+		}
+	}
+	c.Hold("R1c", "getRcptModifiers:registered", r.FI.Decl.Pos(), msg == "", msg)
 }
 
 func c06Replay(c *Check) {
